@@ -284,13 +284,13 @@ def main():
         'checks': checks,
         'notes': 'Every check: bin/check <ID> --tier quick|thorough; exit 0 '
                  'held, 1 VIOLATION, 2 harness error. VERIF_SEED honoured. '
-                 'known_findings.json is read-only at run time (13 entries '
+                 'known_findings.json is read-only at run time (14 entries '
                  'fixed: they suppress nothing; 1 entry known: K1 on C15, '
                  'matched by signature {clause, w_shape}, printed as '
                  'KNOWN-FINDING on every run). Before generating, each '
                  'check replays the shrunk cases under regressions/<ID>/ '
                  '(repaired findings and caught seeded changes) with plain '
-                 'Python. seeded/ holds 94 independently written breaking '
+                 'Python. seeded/ holds 100 independently written breaking '
                  'changes with the result of our checks on each '
                  '(seeded/README.md); sensitivity/ holds own mutants.',
         'not_applicable': [{'property_id': p, 'reason': NA_REASON}
